@@ -1655,3 +1655,10 @@ VARIANTS += [
      "old": "        try:\n            decoded = event.body.decode(\"utf-8\")\n            if not decoded:\n                return\n            parsed = hkjson.loads(decoded)",
      "new": "        decoded = event.body.decode(\"utf-8\")\n        try:\n            if not decoded:\n                return\n            parsed = hkjson.loads(decoded)", "expect": "C12.X2"},
 ]
+
+VARIANTS += [
+    {"name": "connection check moved into _update_subscriptions (a failure to connect is taken for a cut-off request)", "file": _PF,
+     "old": '        """Subscribe or unsubscribe to characteristics."""\n        status = {}\n',
+     "new": '        """Subscribe or unsubscribe to characteristics."""\n        await self._ensure_connected()\n        status = {}\n',
+     "expect": "C12.G2"},
+]
